@@ -608,8 +608,44 @@ class ServerStream(Stream):
         if key not in memo:
             if len(memo) > 5000:
                 memo.clear()
-            memo[key] = run_server_case(case)
+            memo[key] = self._run_guarded(case)
         return memo[key]
+
+    @staticmethod
+    def _run_guarded(case, limit=8.0):
+        """one socket-pair run under its own time limit; a run that stalls (a loaded machine can park the
+        in-process server for many seconds) is repeated once before the per-case watchdog of the runner
+        reports it - a hang of the implementation itself stalls both attempts and is still reported"""
+        import signal
+        import threading
+
+        from vlib.core import HangTimeout
+
+        if threading.current_thread() is not threading.main_thread():
+            return run_server_case(case)
+
+        class Stalled(BaseException):
+            pass
+
+        def fire(signum, frame):
+            raise Stalled()
+
+        left = signal.getitimer(signal.ITIMER_REAL)[0]
+        old = signal.signal(signal.SIGALRM, fire)
+        try:
+            for attempt in (0, 1):
+                signal.setitimer(signal.ITIMER_REAL, limit)
+                try:
+                    return run_server_case(case)
+                except Stalled:
+                    if attempt == 1:
+                        raise HangTimeout() from None
+                finally:
+                    signal.setitimer(signal.ITIMER_REAL, 0)
+        finally:
+            signal.signal(signal.SIGALRM, old)
+            if left > 0:
+                signal.setitimer(signal.ITIMER_REAL, max(0.5, left))  # hand the runner's watchdog back
 
     def real(self, case):
         seen, status_line, headers, body, ok, raw = self._observe(case)
@@ -1366,7 +1402,7 @@ CHECK = Check(
     ],
     trusted_extra=["CPython http.server, socket, selectors, io (exercised by stream server, not verified)"],
     quick_budget=2500,
-    thorough_budget=24000,
+    thorough_budget=18000,
 )
 
 MANIFEST = {
